@@ -16,7 +16,7 @@ That each algorithm returns the minimum over all paths, and that the five routin
 import ast
 
 from ..core import spelling
-from ..core.astutil import norm, cn, ParentMap, same_up_to_reordering
+from ..core.astutil import norm, cn, where_unpack, ParentMap, same_up_to_reordering
 from ..core.cfg import CFG
 from ..core.loader import walk_no_nested
 from ..core.pattern import Matcher
@@ -153,7 +153,7 @@ def _dijkstra_core(rep, f, m, fn_node, G, tag, with_hops):
     if vl:
         v = norm(vl[0].target)
         names = {norm(s.targets[0]): s for s in vl[0].body if isinstance(s, ast.Assign) and isinstance(s.targets[0], (ast.Name, ast.Subscript))}
-        W = [s for s in vl[0].body if isinstance(s, ast.Assign) and isinstance(s.targets[0], ast.Tuple) and m.match(s.value, 'np.where(G1[%s, :])' % v)]
+        W = [s for s in vl[0].body if where_unpack(s) is not None and m.match(where_unpack(s)[1], 'G1[%s, :]' % v)]
         td = names.get('td')
         oktd = td is not None and m.match(td.value, 'np.array([D[%s, W].flatten(), (D[%s, %s] + G1[%s, W]).flatten()])' % (u, u, v, v)) is not None
         st = [s for s in vl[0].body if isinstance(s, ast.Assign) and norm(s.targets[0]) == 'D[%s, W]' % u]
@@ -176,8 +176,8 @@ def _dijkstra_core(rep, f, m, fn_node, G, tag, with_hops):
                    'edge counts change only where the path through v is strictly shorter (argmin picks the old path on ties) and become hops(v)+1', line=w.lineno)
     ex = [norm(s.test) for s in b if isinstance(s, ast.If) and any(isinstance(x, ast.Break) for x in s.body)]
     md = [norm(s) for s in b if isinstance(s, ast.Assign) and norm(s.targets[0]) == 'minD']
-    nv = [norm(s) for s in b if isinstance(s, ast.Assign) and isinstance(s.targets[0], ast.Tuple) and norm(s.targets[0].elts[0]) == 'V']
-    okx = ex == ['D[%s, S].size == 0' % u, 'np.isinf(minD)'] and md == ['minD = np.min(D[%s, S])' % u] and nv == ['V, = np.where(D[%s, :] == minD)' % u]
+    nv = [norm(s) for s in b if where_unpack(s) is not None and norm(where_unpack(s)[0]) == 'V']
+    okx = ex == ['D[%s, S].size == 0' % u, 'np.isinf(minD)'] and md == ['minD = np.min(D[%s, S])' % u] and nv == [cn('V, = np.where(D[%s, :] == minD)' % u)]
     rep.ob('K.dijkstra-next-frontier-is-all-minimal-temporary-nodes', f, '; '.join(ex + md + nv), okx,
            'the search ends when no temporary node is left or the nearest one is unreachable; otherwise all nodes at the minimal temporary length are settled together' + tag, line=w.lineno)
     return lp
